@@ -28,11 +28,16 @@ var checks = map[string]func(*ev.Ctx){
 	"C15": props.C15,
 	"C16": props.C16,
 	"C17": props.C17,
+	"C18": props.C18,
 	"C20": props.C20,
 }
 
 func main() {
 	log.SetDefaultLevel(log.PANIC)
+	if len(os.Args) >= 2 && os.Args[1] == "apply-child" {
+		props.ApplyChild()
+		return
+	}
 	if len(os.Args) < 3 || os.Args[1] != "check" {
 		fmt.Fprintln(os.Stderr, "usage: sidever check <Cxx> [--tier quick|thorough] [--replay file]")
 		os.Exit(2)
